@@ -161,6 +161,19 @@ pub fn run(name: &str, a: &Args) -> Option<String> {
                     assert!(p.cmp(&q) == o && p.partial_cmp(&q) == Some(o), "cmp differs between two constructions of the same values");
                 }
             }
+            assert!(y.cmp(&x) == o.reverse(), "cmp is not antisymmetric");
+            // what the standard library builds on the comparison: Ord::min / max, sorting, clamp, iterator min / max
+            let (lo, hi) = if o == Ordering::Greater { (y, x) } else { (x, y) };
+            assert!(Ord::min(x, y).to_parts() == lo.to_parts() && Ord::max(x, y).to_parts() == hi.to_parts(), "Ord::min / max disagree with cmp");
+            let mut v = [y, x];
+            v.sort();
+            assert!(v[0].total_nanoseconds() <= v[1].total_nanoseconds(), "sort() does not order by the signed value");
+            let mut w = [x, y];
+            w.sort_by(|p, q| p.partial_cmp(q).expect("a total order"));
+            assert!(w[0].to_parts() == v[0].to_parts() && w[1].to_parts() == v[1].to_parts(), "sort_by(partial_cmp) disagrees with sort()");
+            assert!(x.clamp(lo, hi).to_parts() == x.to_parts() && y.clamp(lo, hi).to_parts() == y.to_parts(), "clamp moves a value inside its bounds");
+            assert!([x, y].iter().min().map(|d| d.total_nanoseconds()) == Some(lo.total_nanoseconds()));
+            assert!([x, y].iter().max().map(|d| d.total_nanoseconds()) == Some(hi.total_nanoseconds()));
             ord(o)
         }
         "min" => pdur(a.dur(0).min(a.dur(2))),
